@@ -101,6 +101,22 @@ pub fn checks() -> Vec<Check> {
         budget_s: (50, 900),
     },
     Check {
+        id: "C04",
+        level: "model_checking",
+        stages: vec![
+            st("c04.lattice", c04::lattice, (2, 3), 3, "presence lattice of 34 optional fields (root, cloud, image): all subsets within <=2/3 toggles of all-absent and of all-present x 5 image kinds x 3 finalize modes"),
+            st("c04.strings", c04::strings, (0, 0), 3, "every catalogue string (all strings of length <=3 over 12 XML-critical characters + 20 long ones) in every string field, rotated per field"),
+            st("c04.floats", c04::floats, (0, 0), 3, "every float of the mini-float lattice + specials (NaN, inf, subnormals, extremes) in every float field x 3 projection kinds"),
+        ],
+        extra: None,
+        rule: "every case is written by the real writer with the given metadata and read back by the real reader; all settable fields compared exactly (floats by bits, NaN == NaN); xml() compared with the transformer output and with the XML bytes located by the independent header decoder; distinct = distinct XML",
+        assumptions: &[
+            "strings are built from characters XML can carry; carriage return excluded (XML parsers normalise it)",
+            "file GUID non-empty (documented requirement); partial limit overrides are not expected to round-trip",
+        ],
+        budget_s: (50, 900),
+    },
+    Check {
         id: "C05",
         level: "model_checking",
         stages: vec![
@@ -150,6 +166,33 @@ pub fn checks() -> Vec<Check> {
             "API misuse outside the listed classes (add_point after finalize, second finalize) is judged by no-panic and by read-back of whatever finalize reported as success",
         ],
         budget_s: (45, 900),
+    },
+    Check {
+        id: "C11",
+        level: "model_checking",
+        stages: vec![],
+        extra: Some(c11::extra),
+        rule: "explicit-state BFS: a state is the op history; canonical state = (device bytes, device cursor, page offset, page buffer, generation) read through the verification hooks - every field PagedWriter has, so merging equal states is exact; invariants I1-I5 evaluated on every transition and on the image left by flush (even ops) or drop (odd ops); read side: every op sequence to the depth bound on every distinct image; distinct_nontrivial = distinct canonical states",
+        assumptions: &[
+            "logical length capped at 4 pages; 10 write sizes and 12 seek targets chosen around page boundaries",
+            "reader seeks beyond the end or into checksum bytes are not specified by the statement and not judged",
+        ],
+        budget_s: (45, 900),
+    },
+    Check {
+        id: "C12",
+        level: "model_checking",
+        stages: vec![
+            st("c12.g1", c12::g1, (0, 0), 3, "writer direction: widths 0..64 x 3 range shapes x 4 anchors (0, -3, i64::MIN, i64::MAX) x hooked capacity 1..16 x Integer/ScaledInteger; boundary + walking-bit values; stream bytes vs independent bit codec"),
+            st("c12.g2", c12::g2, (1, 2), 3, "reader direction: widths 0..64 x 4 anchors, e57spec-encoded streams in 2 (thorough 3) packets, every byte cut of every record stream (thorough: all pairs)"),
+            st("c12.g3", c12::g3, (0, 0), 3, "natural packet capacity: for every width one file of capacity+9 points (w-bit + 1-bit + 0-bit records)"),
+            st("c12.g4", c12::g4, (0, 0), 3, "direct drive (hook): w<=12, every value of the width at every position of a 9-value stream, get_full_bytes after every index, reader append split at every byte"),
+            st("c12.g4b", c12::g4b, (0, 0), 3, "direct drive (hook): w<=5, every 3-value sequence after 0..7 leading values, flushed after every value"),
+        ],
+        extra: None,
+        rule: "full products; writer output compared bit by bit with e57spec::bits (value - min, LSB first, contiguous), total stream length exactly ceil(N*w/8); reader fed with independently encoded streams under every cut; evaluations count inner (value, flush/split) combinations; distinct = distinct file / stream",
+        assumptions: &["only same-width streams are driven through the buffers, i.e. exactly the phases the library can produce", "values inside the declared range only (out-of-range belongs to C10)"],
+        budget_s: (50, 900),
     },
     Check {
         id: "C13",
